@@ -17,11 +17,14 @@ head=$(git -C /repo rev-parse --short HEAD)
 cd $W
 mkdir -p cozy-chess/tests
 cp $D/demo.rs cozy-chess/tests/seeded_demo.rs
+# optional per-fault settings for the demonstration (e.g. the PEXT back end)
+DEMO_ARGS=""; DEMO_RUSTFLAGS=""
+[ -f $D/demo.env ] && . $D/demo.env
 echo "### demo on the unmodified tree" >> $log
-cargo test --offline -p cozy-chess --test seeded_demo >> $log 2>&1; demo_clean=$?
+RUSTFLAGS="$DEMO_RUSTFLAGS" cargo test --offline -p cozy-chess $DEMO_ARGS --test seeded_demo >> $log 2>&1; demo_clean=$?
 git apply $D/patch.diff >> $log 2>&1; applies=$?
 echo "### demo with the change" >> $log
-cargo test --offline -p cozy-chess --test seeded_demo >> $log 2>&1; demo_mut=$?
+RUSTFLAGS="$DEMO_RUSTFLAGS" cargo test --offline -p cozy-chess $DEMO_ARGS --test seeded_demo >> $log 2>&1; demo_mut=$?
 rm -f cozy-chess/tests/seeded_demo.rs
 echo "### full existing suite with the change" >> $log
 cargo test --workspace --no-fail-fast --offline >> $log 2>&1; suite=$?
